@@ -4,6 +4,7 @@ package complete
 import (
 	"errors"
 	"sort"
+	"strings"
 
 	"src.elv.sh/pkg/cli/modes"
 	"src.elv.sh/pkg/diag"
@@ -69,6 +70,15 @@ func Complete(code CodeBuffer, ev *eval.Evaler, cfg Config) (*Result, error) {
 	if len(path) == 0 {
 		// This can happen when there is a parse error.
 		return nil, errNoCompletion
+	}
+	if sep, ok := path[0].(*parse.Sep); ok {
+		text := parse.SourceText(sep)
+		if strings.Contains(text, "#") || strings.HasSuffix(text, "^") {
+			// Inside a comment, or right after a line continuation marker
+			// that must be followed by a newline: text inserted here does not
+			// become a word.
+			return nil, errNoCompletion
+		}
 	}
 	for _, completer := range completers {
 		ctx, rawItems, err := completer(path, ev, cfg)
